@@ -126,8 +126,13 @@ def parse_single_constraint(
 
         if version.release.precision == 2:
             high = version.stable.next_major()
-        else:
+        elif version.release.precision <= 3:
             high = version.stable.next_minor()
+        else:
+            # PEP 440: "~=V.N" is ">=V.N, ==V.*", i.e. bump the last but one segment
+            parts = list(version.parts[:-1])
+            parts[-1] += 1
+            high = Version.from_parts(*parts[:3], tuple(parts[3:]), epoch=version.epoch)
 
         return VersionRange(version, high, include_min=True)
 
